@@ -98,7 +98,7 @@ func (un *Unit) chanInv(fr *Frame, st *State, elem types.Type, v string) []struc
 	if n == nil || n.Obj().Pkg() == nil {
 		return nil
 	}
-	for _, cl := range un.specs.ChanInvs[n.Obj().Pkg().Name()+"."+n.Obj().Name()] {
+	for _, cl := range un.specs.ChanInvs[pkgKey(n.Obj().Pkg())+"."+n.Obj().Name()] {
 		sc := &Scope{un: un, vars: map[string]SV{}, cur: st, old: un.entry, pkg: n.Obj().Pkg(), fr: fr}
 		sc.vars["e"] = SV{t: v, typ: elem}
 		tm, _ := un.evalSpec(cl.E, sc)
